@@ -46,7 +46,8 @@ impl ExternalFile {
         let entry_ct = reader.dword()?;
         reader.skip_reserved(8)?;
 
-        let mut results = Vec::with_capacity(entry_ct as usize);
+        // `entry_ct` comes from the file, so do not reserve it up front.
+        let mut results = Vec::new();
         for _ in 0..entry_ct {
             let id = ExternalFileId::new(reader.dword()?);
             reader.skip_reserved(8)?;
